@@ -17,7 +17,7 @@
    cursor updates (outside the critical section: exactly the count elements from head).
    Ghost history (never read by the transition function): g_in / g_out = values written to / read
    from the ring at the marked steps, t_lin = the values the call itself wrote / read. *)
-From Ekit Require Import Common Conc ABQModel ABQProof ABQProof2 ABQProof3 ABQProof4 ABQProof5.
+From Ekit Require Import Common Conc ABQModel ABQProof ABQProof2 ABQProof3 ABQProof4 ABQProof5 ABQProof6.
 
 (* 1. capacity: 0 <= count <= cap at every moment (also inside the critical section), and the
    abstract queue has between 0 and cap elements *)
@@ -117,6 +117,33 @@ Theorem abq_return_values : forall cap evs c t th c' o r,
   end.
 Proof. exact (fun cap evs c t th c' o r Hcap H => abq_return_values_lemma cap c t th c' o r Hcap (ex_intro _ evs H)). Qed.
 Print Assumptions abq_return_values.
+
+(* "exactly one": the per-call history t_lin is empty when the call starts and is extended only by
+   the call's own marked steps (by the value written / read there) — so `t_lin th = [v]` at the
+   return means the call performed exactly one linearisation step between CALL and return *)
+Theorem abq_history_only_at_marked_steps : forall cap evs c e c' o x th0 th',
+  1 <= cap -> exec abq_next (abq_init cap) evs = Some c ->
+  abq_exec1 c e = Some (c', o) ->
+  lookup x (q_thr c) = Some th0 -> lookup x (q_thr c') = Some th' ->
+  t_lin th' = t_lin th0 ++
+    match e with
+    | AStep t =>
+      if Nat.eqb t x then
+        match lin_of c e with
+        | Some (LinEnq v) => [v]
+        | Some LinDeq => [dget (q_data c) (q_head c)]
+        | None => []
+        end
+      else []
+    | _ => []
+    end.
+Proof. exact (fun cap evs c e c' o x th0 th' Hcap H => abq_lin_log_lemma cap c e c' o x th0 th' Hcap (ex_intro _ evs H)). Qed.
+Print Assumptions abq_history_only_at_marked_steps.
+
+Theorem abq_call_starts_with_empty_history : forall c t op c' o th',
+  abq_exec1 c (ACall t op) = Some (c', o) -> lookup t (q_thr c') = Some th' -> t_lin th' = [].
+Proof. exact abq_call_starts_empty. Qed.
+Print Assumptions abq_call_starts_with_empty_history.
 
 (* 5. FIFO order and exactly-once (corollary of 4 through the history): everything written at an
    Enqueue's marked step, in that order, is exactly what has been read at Dequeues' marked steps
